@@ -30,21 +30,21 @@ TEXT = {
     "C05": ("Instance-identity payload with a liveness table: double drop asserted in Drop, leak asserted after teardown of all handles; concurrent "
             "(speculative mpmc read, clone-out broadcast) and in-place view paths.", "5 (C05)"),
     "C06": ("After every concurrent phase a single-threaded probe must accept exactly N minus outstanding further sends and every stream must drain "
-            "exactly its outstanding values then report Empty (leaked pins, stale tail cache, mis-registered streams show up here).", "5 (C06)"),
+            "exactly its outstanding values then report Empty (leaked pins, stale tail cache, mis-registered streams show up here); plus the sibling handle dropped while a consumer is inside clone() (forced-site harnesses).", "4 (forced-site mode), 5 (C06)"),
     "C07": ("End-of-stream may be reported only after every sender's drop has begun and every accepted value was delivered to that stream, and is sticky; "
-            "try_recv and try_recv_view paths, one and two senders.", "5 (C07)"),
+            "try_recv and try_recv_view paths, one sender (two senders: thorough); plus: the last two sender handles dropped concurrently (every site of one drop) while a futures stream task is parked - it must be notified, else the end is never reported.", "5 (C07)"),
     "C08": ("Blocking recv / recv_view as the preempted operation under BlockingWait, BusyWait and YieldingWait with small spin counts; the other threads run at "
             "every preemption point and inside the shim condvar wait; an exact stuck detector asserts no waiter is left blocked while a value it can take or the end is available; "
             "E2 lemmas L5/L5n cover wait::check for all 64-bit values.", "4.1 (blocking operations), 5 (C08)"),
     "C09": ("Symbolic single-threaded histories (solver picks each call) over five alphabets run through the real handles and a reference model; every return value compared.", "5 (C09)"),
-    "C10": ("add_stream both as the preempted operation and as the interfering one (inside the producer's tail recomputation); the new stream must deliver a gap-free suffix starting "
-            "at a position its parent held during the call; parent and other streams keep values and backpressure.", "5 (C10)"),
-    "C11": ("Drop / unsubscribe of last and non-last handles as the preempted operation, racing with sends, receives, another removal and add_stream; afterwards the queue accepts "
-            "exactly what the remaining streams leave room for; unsubscribe's return value checked.", "5 (C11)"),
-    "C12": ("Sender count 1->2->1 and consumer count 1->2->1 (clone, drop) interleaved at every shared access with traffic; exactly-once, order, capacity and quiescence oracles.", "5 (C12)"),
+    "C10": ("add_stream as the preempted operation (sends, parent receives and a sibling handle of the parent stream receiving meanwhile) and two add_stream calls racing (forced-site loop); the new stream must deliver a gap-free suffix starting "
+            "at a position its parent held during the call; parent and other streams keep values and backpressure. The producer-preempted-by-add_stream direction does not finish here (thorough, not explored).", "5 (C10)"),
+    "C11": ("Drop / unsubscribe of last and non-last handles as the preempted operation, racing with sends and receives (solver-chosen sites) and with another removal, add_stream, or the other handle of the same stream (second list change at every site of the first, forced-site loop); afterwards the queue accepts "
+            "exactly what the remaining streams leave room for; unsubscribe's return value checked.", "4 (forced-site mode), 5 (C11)"),
+    "C12": ("Sender handles 1->2 / 2->1 and consumer handles 1->2 / 2->1: the churning actor (clone+use, use+drop) is preempted at every shared access by the traffic of the long-lived handles; consumer handle dropped while its sibling is inside clone(); exactly-once, order, capacity and quiescence oracles. Quick: mpmc; broadcast variants thorough.", "5 (C12)"),
     "C13": ("Every order of dropping all receivers (one or two streams, one or two handles, value queued or not, one or two senders, epoch signal pending or not), then try_send on every sender must hand the value back as Disconnected.", "5 (C13)"),
     "C14": ("Harness executor over the stub task layer: a task whose poll/start_send returned NotReady must have been notified if at quiescence its condition holds "
-            "(value available / space freed / other side gone); the other side runs at every preemption point of the parking call.", "5 (C14)"),
+            "(value available / space freed / other side gone). Quick: start_send on full vs direct try_recv; the notifying poll preempted at every protocol site by a parking start_send; stream removal vs re-polled sink task. The scenarios with a parking poll as injected/preempted operation exhaust memory in CBMC and are thorough / not explored.", "5 (C14)"),
     "C15": ("Symbolic histories of start_send / poll / poll_complete / direct try_send / try_recv / sender drop inside a task against the model: NotReady carries the identical message exactly when full, "
             "None only at the end, no waiting (shim sleep) inside the call.", "5 (C15)"),
     "C16": ("The REAL MemoryManager and ReadCursor driven in the queue's announce/scan/retire pattern with 20 pre-loaded retirements so reclamation cycles run; CBMC pointer checks (use after free, double free, bounds) are the oracle; "
